@@ -3,6 +3,7 @@ import SJ.Model.Stage2
 import SJ.Model.Walk
 import SJ.Model.WF
 import SJ.Model.WFDense
+import SJ.Model.NopExact
 import SJ.Model.Stream
 import SJ.Model.Serialize
 import SJ.Model.SerializeEnc
@@ -417,6 +418,10 @@ def step (st : Store) (line : String) : Store × String :=
     match st.pjs[pn]? with
     | none => (st, "bad-ref")
     | some pj => (st, match decodeTapeD pj with | some d => "wf " ++ ovalStr (.arr d) | none => "malformed")
+  | ["nopsexact", pn] =>
+    match st.pjs[pn]? with
+    | none => (st, "bad-ref")
+    | some pj => (st, match nopsExact pj with | none => "exact" | some j => s!"inexact {j}")
   | ["serde", dst, src] =>
     match st.pjs[src]? with
     | none => (st, "bad-ref")
